@@ -365,3 +365,15 @@ def contracts():
     for c in extra:
         c.prop = "C14"
     return _c14_base2() + extra
+
+
+# a refused assignment to a constant must not (re)link it: the setter's link step comes after the guard
+_c14_base3 = contracts
+
+
+def contracts():
+    from contracts import c02 as _c02
+    sets = _c02.all_set_contracts(["C02/exc-frame/no-link-bookkeeping", "C02/exc-frame/refs-and-async-refs-unchanged"])
+    for c in sets:
+        c.prop = "C14"
+    return _c14_base3() + sets
